@@ -30,7 +30,7 @@ func bin(op string, l, r *ref.Node) *ref.Node {
 	return &ref.Node{Kind: k, Op: op, Kids: []*ref.Node{l, r}}
 }
 
-var c01Idents = []string{"a", "b", "ক", "x1"}
+var c01Idents = []string{"a", "b", "ক", "x1", "\u09ab\u09b0\u09cd\u09ae\u09c1\u09b2\u09be", "\u09b8\u09a4\u09cd\u09af\u09bf", "\u09ac\u09be\u0981", "\u09ab\u09b0\u09be\u09b8\u09bf", "nil_", "\u09a7\u09b0\u09bf\u09c7"}
 var c01BinOps = []string{"||", "&&", "|", "^", "&", "==", "!=", "<", "<=", ">", ">=", "<<", ">>", "+", "-", "*", "/", "%", "**"}
 
 func randTreeExpr(r *Rng, depth int, lit bool) *ref.Node {
